@@ -90,21 +90,23 @@ func rowsrestCharWidths(value int, outside bool) []int {
 
 var rowsrestCkWeight = []int{1, 3, 9, 27, 2, 6, 18, 54, 4, 12, 36, 29, 8, 24, 72, 58, 16, 48, 65, 37, 32, 17, 51, 74, 64, 34, 23, 69, 49, 68, 46, 59}
 
-// the 46 element widths (first element a space) of the RSS-14 symbol of a 13-digit value; nil if not encodable
-func rowsrestSymbolWidths(value int64) []int {
+// the 46 element widths (first element a space) of the RSS-14 symbol of a 13-digit value; nil if not encodable.
+// forceL/forceR >= 0 draw those finder patterns instead of the ones the checksum selects.
+func rowsrestSymbolWidthsF(value int64, forceL, forceR int) ([]int, int) {
 	left, right := int(value/4537077), int(value%4537077)
 	d := [][]int{rowsrestCharWidths(left/1597, true), rowsrestCharWidths(left%1597, false),
 		rowsrestCharWidths(right/1597, true), rowsrestCharWidths(right%1597, false)}
 	ck := 0
 	for i := 0; i < 4; i++ {
 		if d[i] == nil {
-			return nil
+			return nil, 0
 		}
 		for j := 0; j < 8; j++ {
 			ck += rowsrestCkWeight[8*i+j] * d[i][j]
 		}
 	}
 	ck %= 79
+	raw := ck
 	if ck >= 8 {
 		ck++
 	}
@@ -112,6 +114,9 @@ func rowsrestSymbolWidths(value int64) []int {
 		ck++
 	}
 	cl, cr := ck/9, ck%9
+	if forceL >= 0 {
+		cl, cr = forceL, forceR
+	}
 	w := make([]int, 46)
 	w[0], w[1], w[44], w[45] = 1, 1, 1, 1
 	for i := 0; i < 8; i++ {
@@ -124,7 +129,35 @@ func rowsrestSymbolWidths(value int64) []int {
 		w[10+i] = rowsrestFinder[cl][i]
 		w[31+i] = rowsrestFinder[cr][4-i]
 	}
+	return w, raw
+}
+
+func rowsrestSymbolWidths(value int64) []int {
+	w, _ := rowsrestSymbolWidthsF(value, -1, -1)
 	return w
+}
+
+// a symbol drawn with a finder-pattern pair on the edges of the check-value mapping (the pairs (0,8) and (8,0) are
+// never used by an encoder; the pairs next to them are the first / last shifted ones), carrying a value whose check
+// value is exactly what the reader expects for that pair — or one off
+func rowsrestRSSBoundarySymbol(r *Rng) []int {
+	pairs := [][2]int{{8, 0}, {0, 8}, {0, 7}, {1, 0}, {7, 8}, {8, 1}, {8, 8}, {0, 0}}
+	pr := pairs[r.Intn(len(pairs))]
+	t := 9*pr[0] + pr[1]
+	if t > 72 {
+		t--
+	}
+	if t > 8 {
+		t--
+	}
+	t += r.Pick([]int{0, 0, 0, 1, -1})
+	for try := 0; try < 4000; try++ {
+		v := int64(r.U64() % 10000000000000)
+		if w, raw := rowsrestSymbolWidthsF(v, pr[0], pr[1]); w != nil && raw == (t+79)%79 {
+			return w
+		}
+	}
+	return nil
 }
 
 func rowsrestGTIN(value int64) string {
@@ -439,6 +472,11 @@ func rowsrestRSS(c *Ctx) {
 				if r.Chance(0.4) {
 					m, how := c06MutateRow(r, full)
 					pool = append(pool, poolRow{m, "symbol-" + how})
+				}
+				if r.Chance(0.2) {
+					if wb := rowsrestRSSBoundarySymbol(r); wb != nil {
+						pool = append([]poolRow{{rowsrestRSSRow(r, wb, 0), "boundary-finder-pair"}}, pool...)
+					}
 				}
 				if r.Chance(0.3) { // a second symbol: pairs of two symbols in one history
 					if w2 := rowsrestSymbolWidths(rowsrestRSSValue(r)); w2 != nil {
